@@ -55,3 +55,16 @@ def subsquareLo (S : Nat) (cs : List Nat) : Nat :=
   (List.range cs.length).foldl (fun a t => a + (cs.getD t 0) * S * f64One / 2 ^ (t + 1)) 0
 
 end KT
+
+namespace KT
+
+/-- C04/C05: the oligo vectors file for either mode (raw counts or normalised) — the right-hand side of
+    `oligo_batch_end_to_end`; for `norm = true` it is `oligoFileSpec` -/
+def oligoFileSpecG (k : Nat) (norm header : Bool) (delim : List Nat) (recs : List (List Nat)) : List Nat :=
+  (if header then joinBytes delim (headerSpec k) ++ [10] else []) ++
+  (recs.map fun s => rowText norm delim (oligoRowSpec k s) (windowCount k s)).flatten
+
+theorem oligoFileSpecG_norm (k : Nat) (header : Bool) (delim : List Nat) (recs : List (List Nat)) :
+    oligoFileSpecG k true header delim recs = oligoFileSpec k header delim recs := rfl
+
+end KT
